@@ -39,6 +39,7 @@ from tlz import (
 
 from dask import config
 from dask._task_spec import (
+    Alias,
     GraphNode,
     List,
     Task,
@@ -116,8 +117,21 @@ def lazify_task(task, start=True):
             subgraph, outkey, inkeys, *dependencies = task.args
             # If there is a reify at the output of the subgraph we don't want to act
             final_task = lazify_task(subgraph[outkey], True)
+            # The output may be an alias of an inner task: that task's value
+            # leaves the subgraph as well and may have several consumers
+            escaping = {outkey}
+            node = subgraph[outkey]
+            while (
+                isinstance(node, Alias)
+                and node.target in subgraph
+                and node.target not in escaping
+            ):
+                escaping.add(node.target)
+                node = subgraph[node.target]
             subgraph = {
-                k: lazify_task(v, False) for k, v in subgraph.items() if k != outkey
+                k: lazify_task(v, k in escaping)
+                for k, v in subgraph.items()
+                if k != outkey
             }
             subgraph[outkey] = final_task
             return Task(
